@@ -298,6 +298,7 @@ pub fn run(tier: Tier, args: &[String]) -> i32 {
             fault: Some(ctx.clone()),
             min_frontier: 400,
             record: false,
+            garbage: false,
         };
         let v = V {
             rep: &rep,
@@ -319,6 +320,7 @@ pub fn run(tier: Tier, args: &[String]) -> i32 {
                 fault: Some(ctx.clone()),
                 min_frontier: 400,
             record: false,
+            garbage: false,
             },
         };
         let st = explore::run(&cfg, &v, 4);
